@@ -27,11 +27,27 @@ def _calls(effects):
     return [abseval.show(v).strip("'") for k, v in effects if k == 'call']
 
 
-def _evaluate(body, where, assume, order=None):
+def _evaluate(body, where, assume, order=None, _depth=0):
+    """Abstract run of a loop body under truth assumptions.  A test the assumptions do not decide (e.g. the body of an inlined helper
+    that distinguishes leaves from containers) forks the run: both outcomes are explored and their effects united - a case is
+    'validated' when some way through the code examines it."""
     try:
         return abseval.run_block(body, order=order or {}, assume=assume)
     except abseval.NotUnderstood as e:
+        msg = str(e)
+        if msg.startswith('undecidable test ') and _depth < 4:
+            atom = msg[len('undecidable test '):]
+            outs = [_evaluate(body, where, dict(assume, **{atom: v}), order, _depth + 1) for v in (True, False)]
+            results = {o[0] for o in outs}
+            result = outs[0][0] if len(results) == 1 else ('fall',) if ('fall',) in results else outs[0][0]
+            effects = [x for o in outs for x in o[1]]
+            return result, effects, outs[0][2]
         raise AnalysisError(f"{where}: requirement checker uses an idiom the abstract evaluator does not understand ({e})")
+
+
+def _examined(effects):
+    """the member is looked at: a checker is called for it or its requirement flag is computed"""
+    return bool(_calls(effects)) or any(k.endswith('.requirements_fulfilled') for k, _ in effects if k != 'call')
 
 
 def check_requirement_tables(ctx):
@@ -111,7 +127,7 @@ def check_requirement_tables(ctx):
         if own:
             res.check(dispatcher in calls, 'R-EXH.validate-started', sq.fq, f"[sequence member: {label}] is validated", fail_detail=f"calls {calls}", key=key, line=loop.lineno)
         elif mn == 1:
-            res.check(bool(calls), 'R-EXH.validate-started', sq.fq, f"[sequence member: {label}] is validated", fail_detail=f"outcome {abseval.show(result)}, calls {calls}",
+            res.check(_examined(eff), 'R-EXH.validate-started', sq.fq, f"[sequence member: {label}] is validated", fail_detail=f"outcome {abseval.show(result)}, calls {calls}",
                       key=key, line=loop.lineno)
         else:
             res.check(result[0] != 'raise' and not calls, 'R-EXH.validate-started', sq.fq, f"[sequence member: {label}] is skipped", fail_detail=f"calls {calls}", key=key,
